@@ -36,6 +36,13 @@ SimThread *spawn(SimThread *parent, void *tstate, void (*entry)());
 void set_term(void (*f)()) { std::set_terminate(f); }
 constexpr long EPOCH_NS = 1700000000ll * 1000000000ll;
 
+// A program that polls the clock without ever blocking must still see time pass: after 256 reads of an unchanged
+// clock it creeps by 50us (deterministic; never triggers when somebody blocks between reads).
+static long last_read_now = -1; static unsigned same_reads;
+static void clock_read() {
+    if (G.now != last_read_now) { last_read_now = G.now; same_reads = 0; return; }
+    if (++same_reads >= 256) { G.now += 50000; last_read_now = G.now; same_reads = 0; }
+}
 static void mark_yield(SimThread *t) {
     t->yielding = true;
     if (!G.replay_dec && G.strategy == 1 /*PCT*/) t->prio = G.prio_low--;
@@ -55,7 +62,7 @@ static MxEnt *mx_find(uintptr_t a) {
 }
 bool mutex_is_free(uintptr_t m) { return mx_find(m)->owner < 0; }
 bool guard_is_free(uintptr_t g) { return mx_find(g)->owner < 0; }
-void sync_reset() {}
+void sync_reset() { last_read_now = -1; same_reads = 0; }
 
 static void mx_lock(SimThread *t, uintptr_t m) {
     MxEnt *e = mx_find(m);
@@ -340,10 +347,12 @@ unsigned int std::thread::hardware_concurrency() noexcept { return 2; }
 // ====================================================================== clocks and sleeps
 std::chrono::system_clock::time_point std::chrono::system_clock::now() noexcept {
     if (!simself()) { struct timespec ts; clock_gettime(CLOCK_REALTIME, &ts); return time_point(duration(std::chrono::seconds(ts.tv_sec) + std::chrono::nanoseconds(ts.tv_nsec))); }
+    clock_read();
     return time_point(duration(std::chrono::nanoseconds(EPOCH_NS + G.now)));
 }
 std::chrono::steady_clock::time_point std::chrono::steady_clock::now() noexcept {
     if (!simself()) { struct timespec ts; clock_gettime(CLOCK_MONOTONIC, &ts); return time_point(duration(std::chrono::seconds(ts.tv_sec) + std::chrono::nanoseconds(ts.tv_nsec))); }
+    clock_read();
     return time_point(duration(std::chrono::nanoseconds(G.now)));
 }
 static void sim_sleep(SimThread *t, long ns) {
